@@ -26,14 +26,16 @@ CONFIG = {
              "non-trivial = the required query returned nodes; distinct = distinct (document, path list)."),
     "trusted_base": [
         "modelled, not verified: yamlpath/processor.py 59-167, 811-2627; common/searches.py; Nodes.typed_value",
-        "the reference semantics used by the judge (harness/c01.py ref_*; the Gallina text is coq/Spec/SpecC01.v) is "
-        "hand-written from README 'Supported YAML Path Segments' and DESIGN Appendix C",
+        "the reference semantics used by the judge (harness/c01.py ref_*) is hand-written from README 'Supported YAML "
+        "Path Segments' and DESIGN Appendix C; it is compared on every case with the extracted coq/Spec/SpecC01.v "
+        "sem_doc (request '(sem ...)', ocaml/drv_sem.ml), the specification the C01 theorems are stated against",
         "value comparison of search operators is delegated to the real Searches.search_matches (C12 is the property "
         "about it)",
     ],
     "assumptions": [
         "the model is the code only as far as the correspondence run shows",
-        "C01 theorems: see docs/C01.md for the fragment actually proved",
+        "C01_required_sem_partial covers the whole fragment generated here; its guard (no SOut in the strict reading "
+        "of the specification) excludes exactly the 'unspecified' answers of the reference and the findings F12a / F29",
     ],
 }
 
@@ -214,8 +216,8 @@ class Unspecified(Exception):
     """the documented semantics say nothing (or say 'error') here"""
 
 
-def ref_sem(segs, x):
-    """the nodes a path selects starting at x, in document order"""
+def ref_sem(segs, x, tl=True):
+    """the nodes a path selects starting at x, in document order  (coq/Spec/SpecC01.v: sem_segs / seg_sem)"""
     E = ec._ENV
     T = E["PathSegmentTypes"]
     if not segs:
@@ -225,46 +227,29 @@ def ref_sem(segs, x):
     if isinstance(x, Virt):
         # what further segments do to a virtual (slice) result is not documented
         raise Unspecified("segment after a slice result")
-    if ty is T.MATCH_ALL and rest:
-        kids = children(x) if not is_setx(x) else []
-        out = []
-        for c in kids:
-            if look(rest[0], rest[1:], c, True):
-                out.extend(ref_sem(rest, c))
-        return out
-    if ty is T.TRAVERSE:
+    if ty is T.MATCH_ALL:
+        # every immediate child; with a following segment, those on which it selects
+        if rest and is_setx(x) and len(x):
+            SETSTAR[0] = True
+        sel = children(x)
+    elif ty is T.TRAVERSE:
         if not rest:
             return leaves(x)
         if rest[0][0] is T.TRAVERSE:
             raise Unspecified("** **")
         out = []
         for n in desc_or_self(x):
-            if look(rest[0], rest[1:], n, False):
-                out.extend(ref_sem(rest, n))
+            out.extend(ref_sem(rest, n, False))      # the filter applies without list pass-through
         return out
+    else:
+        sel = ref_sel(seg, x, tl)
     out = []
-    for n in ref_sel(seg, x):
+    for n in sel:
         out.extend(ref_sem(rest, n))
     return out
 
 
-def look(seg, after, x, tl):
-    """does the segment select anything on x (the look-ahead of * and **)"""
-    E = ec._ENV
-    T = E["PathSegmentTypes"]
-    ty = seg[0]
-    if ty is T.MATCH_ALL:
-        if after:
-            kids = children(x) if not is_setx(x) else []
-            return any(look(after[0], after[1:], c, True) for c in kids)
-        return bool(children(x))
-    if ty is T.TRAVERSE:
-        if after:
-            if after[0][0] is T.TRAVERSE:
-                raise Unspecified("** **")
-            return any(look(after[0], after[1:], n, False) for n in desc_or_self(x))
-        return True
-    return bool(ref_sel(seg, x, tl))
+SETSTAR = [False]
 
 
 def ids_of(ld, nodes):
@@ -278,18 +263,20 @@ def ids_of(ld, nodes):
 
 
 def reference(ld, path):
-    """-> ('ok', ids, multi) | ('unspecified', why, False)"""
+    """-> ('ok', ids, flags) | ('unspecified', why, False)   flags: '' | 'multi' | 'setstar' (which listed
+    finding the documented meaning runs into on this input)"""
     E = ec._ENV
     try:
         segs = list(E["YAMLPath"](path).escaped)
     except Exception:  # noqa
         return ("unspecified", "path does not parse", False)
     if ld.data is None:
-        return ("unspecified", "null document", False)
+        return ("ok", [], "")          # "Refusing to get nodes from a null document"
     MULTI[0] = False
+    SETSTAR[0] = False
     try:
         ids = ids_of(ld, ref_sem(segs, ld.data))
-        return ("ok", ids, MULTI[0])
+        return ("ok", ids, "multi" if MULTI[0] else ("setstar" if SETSTAR[0] else ""))
     except Unspecified as e:
         return ("unspecified", str(e), False)
     except E["YAMLPathException"]:
@@ -320,16 +307,34 @@ def result_ids(line):
 _REF = {}
 
 
+def sem_line(ref):
+    """the reference's answer in the format of ocaml/drv_sem.ml"""
+    kind, want, _ = ref
+    if kind != "ok":
+        return "(sem unspecified)"
+    return "(sem ok (%s))" % " ".join(
+        ("(v%s)" % "".join(" i%d" % e for e in w[1])) if isinstance(w, tuple) else "i%d" % w for w in want)
+
+
 def requests(case):
-    return ec.requests(case)
+    """per path the three queries of the model of the code, then per path the EXTRACTED SPECIFICATION
+    (Spec/SpecC01.v sem_doc) -- compared with the Python reference below"""
+    doc, paths = case
+    out = ec.requests(case)
+    ld = ec.LoadedDoc(doc)
+    for p in paths:
+        lit, re_t = ec.tables_for(ld, p)
+        out.append("(sem %s %s %s %s %s)" % (ec.hexs(p), ld.sexp, lit, re_t, ld.nstr))
+    return out
 
 
 def observe(case):
     doc, paths = case
     obs = ec.observe(case)
     ld = ec.LoadedDoc(doc)
-    _REF[(doc, tuple(paths))] = [reference(ld, p) for p in paths]
-    return obs
+    refs = [reference(ld, p) for p in paths]
+    _REF[(doc, tuple(paths))] = refs
+    return obs + [sem_line(r) for r in refs]
 
 
 def slash_twin(paths, i):
@@ -367,7 +372,7 @@ def failures(case, obs, refs=None):
             continue          # crashes are C15's business; mutation C09's
         if got != want:
             out.append((p, "required %r on %r selects %s, the documented semantics select %s" % (p, doc, got, want),
-                        "multi" if multi else None))
+                        multi or None))
             continue
         # the same path in the other notation (transcribed by the library itself; only when the transcription
         # re-parses to the same segments, which is C08's subject) selects the same nodes
@@ -395,7 +400,7 @@ def failures(case, obs, refs=None):
                 only_nulls = bool(extra) and all(x == null_id for x in extra) and \
                     [x for x in got_o if x != null_id or x in want] is not None
                 out.append((p, "optional %r on %r (existing path) selects %s, required/documented %s"
-                            % (p, doc, got_o, want), "null" if only_nulls else ("multi" if multi else None)))
+                            % (p, doc, got_o, want), "null" if only_nulls else (multi or None)))
     return out
 
 
@@ -441,16 +446,25 @@ def f_multi_descendant(case, obs):
     return bool(fs) and all(k is not None for _, _, k in fs) and any(k == "multi" for _, _, k in fs)
 
 
-FINDING_PREDS = {"optional_stops_at_null": f10_optional_stops_at_null, "multi_descendant_search": f_multi_descendant}
+def f_wildcard_filter_on_set(case, obs):
+    """`*` followed by another segment, applied to a set: the code yields nothing, the documented meaning keeps the
+    members on which the following segment selects (every failure of the case is explained by a listed finding,
+    at least one by this one)"""
+    fs = failures(case, obs)
+    return bool(fs) and all(k is not None for _, _, k in fs) and any(k == "setstar" for _, _, k in fs)
+
+
+FINDING_PREDS = {"optional_stops_at_null": f10_optional_stops_at_null, "multi_descendant_search": f_multi_descendant,
+                 "wildcard_filter_on_set": f_wildcard_filter_on_set}
 
 
 def classify(case, obs):
-    n = sum(1 for i in range(0, len(obs), 3) if obs[i].startswith("(ok ("))
+    n = sum(1 for i in range(0, 3 * len(case[1]), 3) if obs[i].startswith("(ok ("))
     return "docsize%02d:%s" % (min(len(case[0]) // 10, 20), "some" if n else "none")
 
 
 def nontrivial(case, obs):
-    return any(l.startswith("(ok (") and l != "(ok ())" for l in obs)
+    return any(l.startswith("(ok (") and l != "(ok ())" for l in obs[:3 * len(case[1])])
 
 
 def in_fragment(path):
@@ -459,7 +473,11 @@ def in_fragment(path):
 
 def corpus_chunks():
     yield [("[{a: null}, {a: {b: 1}}]", ["a.b", "/a/b"]), ("{x: {a1: 1, a2: 2}}", ["**[.^a]"]),
-           ("[{b: 1}, {c: 2}]", ["[b!=1]"]), ("{x: [{a: 1}]}", ["x.a", "/x/a"])]
+           ("[{b: 1}, {c: 2}]", ["[b!=1]"]), ("{x: [{a: 1}]}", ["x.a", "/x/a"]),
+           ("s: !!set {a, b}", ["s.*[.=a]", "s.*", "s[.=a]", "**.*[.=a]"]),
+           ("[{a: {x: 2, y: 1}}]", ["[a.*=1]", "[a.*!=1]"]),
+           ("{x: [{a: 1, b: [1, 2, 3]}, {a: 2, b: [4, 5, 6]}]}", ["x[a=2].b[1:3]", "x.b[-1]", "x.*[b.0!=1].a", "x.**",
+                                                                 "x.b[1:1]", "x.b[7:9]", "x[0][a:b]"])]
 
 
 def chunks(tier, seed):
